@@ -100,6 +100,7 @@ class Rig:
         self.scan = jax.jit(rollout)
         self.eager_budget = {"reset": 1, "step": 2, "chain": 4, "event": 2}
         self.event_sigs_done = set()
+        self.interfered = False
 
 
 def run_case(ctx, rig, keys, plans, picks, fail, eager_first):
@@ -139,6 +140,20 @@ def run_case(ctx, rig, keys, plans, picks, fail, eager_first):
         per_key_states.append(states)
     # spec property reads in between (cached properties must not disturb anything)
     _ = (b.env.observation_spec, b.env.action_spec, b.env.reward_spec, b.env.discount_spec)
+
+    # 0. interference (once per configuration): other library code is run on the same environment object between
+    # the stored calls and their re-issue - the auto-reset wrapper (both settings of next_obs_in_extras), the batched
+    # wrapper and the dm_env adapter, in plain Python - "calling in a different order ... gives the same result"
+    if not rig.interfered:
+        rig.interfered = True
+        from jumanji.wrappers import AutoResetWrapper, JumanjiToDMEnvWrapper, VmapWrapper
+
+        k_i = envs.make_key((int(keys[0][0]) ^ 0x5A5A, int(keys[0][1])))
+        for w in (AutoResetWrapper(b.env, next_obs_in_extras=True), AutoResetWrapper(b.env, next_obs_in_extras=False)):
+            w.reset(k_i)
+        VmapWrapper(b.env).reset(jax.random.split(k_i, 2))
+        JumanjiToDMEnvWrapper(b.env, key=k_i).reset()
+        ctx.count("interference_rounds")
 
     # 1. re-issue stored calls: same object (after all the other calls), fresh instance in reverse order
     chosen = sorted({p % len(calls) for p in picks})
